@@ -373,16 +373,25 @@ Definition cleanup_agree (cfg : config) (now tol : N) (c impl : cache) : bool :=
   (if len pre <=? max_peers cfg then cache_eqb pre impl else true).
 
 (* load_cache_data on a file whose decoding is `data` (None: serde rejected it).
-   kind: 0 Ok, 1 Err, 2 Panic. *)
-Definition agree_load (unfixed : bool) (cfg : config) (now : N) (present : bool) (data : option cache)
+   kind: 0 Ok, 1 Err, 2 Panic.  `Unfixed m`: the clean-up with the u32 sum in failure_rate under debug
+   (panic) or release (wrap: the sort keys, hence the truncation, can differ) arithmetic. *)
+Definition agree_load (v : variant) (cfg : config) (now : N) (present : bool) (data : option cache)
            (kind : N) (impl : cache) : bool :=
-  let file := if present then Some EmptyString else None in
-  if unfixed && is_panic (load_cache_unfixed Debug (fun _ => data) cfg now file) then kind =? 2
-  else
-    match file, data with
-    | Some _, Some c => (kind =? 0) && cleanup_agree cfg now 0 c impl
-    | _, _ => kind =? 1
-    end.
+  match present, data with
+  | true, Some c =>
+      match v with
+      | Fixed => (kind =? 0) && cleanup_agree cfg now 0 c impl
+      | Unfixed m =>
+          match map_outcome (fun pl => bind (truncate_addrs_unfixed m cfg (snd pl)) (fun l => Ok (fst pl, l)))
+                            (clean_peers cfg now c) with
+          | Panic => kind =? 2
+          | Err _ => false
+          | Ok pre => (kind =? 0) && remove_oldest_ok cfg now 0 pre impl &&
+                      (if len pre <=? max_peers cfg then cache_eqb pre impl else true)
+          end
+      end
+  | _, _ => kind =? 1
+  end.
 
 (* ---- histories on CacheData values (constructed times; one clock for the whole case).
    Lock-step: the state a step starts from is the implementation's dump after the previous step. *)
